@@ -7,6 +7,8 @@ import (
 	"fmt"
 	"regexp"
 	"runtime"
+	"runtime/debug"
+	"strings"
 	"sort"
 	"strconv"
 	"sync"
@@ -78,6 +80,7 @@ type Violation struct {
 // decision log. Exactly one Sim is active per process at a time.
 type Sim struct {
 	Tape *Tape
+	Prop string // property id of the running scenario
 
 	controlled atomic.Bool
 	mu         sync.Mutex // protects the fields below; never held while parked
@@ -249,6 +252,22 @@ func (s *Sim) Go(name string, f func()) *Task {
 		s.tasks[id] = t
 		s.mu.Unlock()
 		defer func() {
+			if r := recover(); r != nil {
+				// a panic inside a client request is the product's (or the
+				// scenario's) and is reported, not allowed to kill the worker
+				st := string(debug.Stack())
+				where := "?"
+				for _, l := range strings.Split(st, "\n") {
+					if strings.Contains(l, "/repo/") && !strings.Contains(l, "/verifsim/") {
+						where = strings.TrimSpace(l)
+						if i := strings.Index(where, " +0x"); i > 0 {
+							where = where[:i]
+						}
+						break
+					}
+				}
+				s.Violate(s.Prop, "panic-in-request", map[string]any{"where": where}, "client task %s panicked: %v\n%s", name, r, st)
+			}
 			s.mu.Lock()
 			t.Done = true
 			s.mu.Unlock()
